@@ -179,7 +179,9 @@ def oracle_gen(case, ctx):
         ctx.fail(f'{a} with {chain}: next state is not one the reference model allows', {'kind': 'model_mismatch', 'action': a})
     # direct statement: only the faced cell may change, only under ACTUATE (chains without teleport keep "faced" unambiguous)
     changed = []
-    if 'teleport' not in chain:
+    if 'teleport' not in chain and 'move_obstacles' not in chain:
+        # (with stochastic transitions in the chain the faced cell / revealed content can change again within the same step;
+        #  those chains are decided by the outcome-set membership above)
         f = M.front(sd)
         for p, o in doors_boxes(sd).items():
             now = M.cell(nd, p)
@@ -198,7 +200,14 @@ def oracle_gen(case, ctx):
                 if 'actuate_door' not in chain:
                     ctx.fail('door changed without actuate_door in the chain', {'kind': 'door_rule'})
             else:
-                if now != M.parse_obj(o)['content']:
+                content = M.parse_obj(o)['content']
+                allowed = {content}
+                if 'actuate_door' in chain and 'actuate_box' in chain and chain.index('actuate_door') > chain.index('actuate_box') and M.obj_type(content) == 'Door':
+                    # the revealed door is faced and actuated by the later actuate_door of the same step (composition of two documented rules)
+                    probe = {'grid': [[content]], 'agent': [1, 0, 'F', sd['agent'][3]]}
+                    probe = {'grid': [[content], ['F']], 'agent': [1, 0, 'F', sd['agent'][3]]}
+                    allowed.add(M.cell(M.step_det(probe, 'ACTUATE', ['actuate_door']), (0, 0)))
+                if now not in allowed:
                     ctx.fail(f'box {o} became {now}', {'kind': 'box_rule', 'action': a})
         if a == 'ACTUATE' and nd['agent'][3] != sd['agent'][3]:
             ctx.fail('ACTUATE changed the held item (keys are not consumed)', {'kind': 'key_consumed'})
